@@ -1057,3 +1057,172 @@ func ruleCQEWellFormed(c *Ctx) {
 		}
 	}
 }
+
+// ruleDequeueBound (C12/C13): System.Tick asserts that a dequeued batch is no longer than the
+// configured batch size; api.DequeueSQE / aio.DequeueCQE therefore take at most n entries: after the
+// parked entry, a counting loop `for i := 0; i < n-len(batch); i++` whose body appends at most one
+// entry per iteration. Any other bound returns n+1 entries under load and the assertion fails on
+// the kernel goroutine.
+func ruleDequeueBound(c *Ctx) {
+	for _, t := range []struct{ pkg, recv, fn string }{{pkgIApi, "api", "DequeueSQE"}, {pkgIAio, "aio", "DequeueCQE"}} {
+		pk := c.P.Pkg(t.pkg)
+		key := "dequeue-bound/" + t.recv + "." + t.fn
+		if pk == nil {
+			c.und(key, 0, "package not loaded")
+			continue
+		}
+		fd := funcDecl(pk, t.recv, t.fn)
+		if fd == nil {
+			c.und(key, 0, t.fn+" not found")
+			continue
+		}
+		info := pk.TypesInfo
+		nPar := paramObjOf(info, fd.Type, 0)
+		var batch types.Object
+		if n := len(fd.Body.List); n > 0 {
+			if rs, ok := fd.Body.List[n-1].(*ast.ReturnStmt); ok && len(rs.Results) == 1 {
+				if id, ok := ast.Unparen(rs.Results[0]).(*ast.Ident); ok {
+					batch = info.Uses[id]
+				}
+			}
+		}
+		var loop *ast.ForStmt
+		nLoops := 0
+		ast.Inspect(fd.Body, func(x ast.Node) bool {
+			switch l := x.(type) {
+			case *ast.ForStmt:
+				nLoops++
+				loop = l
+			case *ast.RangeStmt:
+				nLoops++
+			}
+			return true
+		})
+		ok, why := false, "no single counting loop"
+		if loop != nil && nLoops == 1 && batch != nil && nPar != nil {
+			ok, why = true, ""
+			// init: i := 0
+			var iObj types.Object
+			if as, isAs := loop.Init.(*ast.AssignStmt); isAs && len(as.Lhs) == 1 && len(as.Rhs) == 1 && exprString(as.Rhs[0]) == "0" {
+				if id, isId := as.Lhs[0].(*ast.Ident); isId {
+					iObj = info.Defs[id]
+				}
+			}
+			if iObj == nil {
+				ok, why = false, "the counter does not start at 0"
+			}
+			// cond: i < n - len(batch), through locals (provenance with the three variables kept symbolic)
+			env := newProvEnv(pk, fd)
+			env.sym = map[types.Object]string{iObj: "$i", nPar: "$n", batch: "$batch"}
+			atoms := env.condAtoms(loop.Cond, false)
+			if len(atoms) != 1 || (atoms[0] != "($i < ($n - len($batch)))" && atoms[0] != "(($i + len($batch)) < $n)" && atoms[0] != "(len($batch) < $n)") {
+				ok, why = false, "the loop condition is not `i < n - len(batch)`: "+strings.Join(atoms, " ∧ ")
+			}
+			// post: i++
+			if inc, isInc := loop.Post.(*ast.IncDecStmt); !isInc || inc.Tok != token.INC || !isObj(info, inc.X, iObj) {
+				ok, why = false, "the counter is not incremented by one"
+			}
+			// at most one append per iteration: appends in the body are in different select/if arms
+			nApp := 0
+			ast.Inspect(loop.Body, func(x ast.Node) bool {
+				if as, isAs := x.(*ast.AssignStmt); isAs && len(as.Lhs) == 1 && isObj(info, as.Lhs[0], batch) {
+					nApp++
+				}
+				return true
+			})
+			if nApp != 1 {
+				ok, why = false, fmt.Sprintf("%d appends per iteration", nApp)
+			}
+		}
+		c.check(ok, key, fd.Pos(), "at most n entries are returned (parked entry + i < n-len(batch) receives)", t.fn+" can return more than n entries ("+why+"): System.Tick's batch-size assertion fails on the kernel goroutine under load")
+	}
+}
+
+// ruleAwaitNonNil (C11/C13): the background coroutines collect the awaitables of the helpers they
+// spawned in a slice that has a nil entry for every record they skipped; gocoro.Await on such an
+// entry must be governed by a nil test of that entry (with continue/return), otherwise the sweep
+// panics on the first skipped record.
+func ruleAwaitNonNil(c *Ctx) {
+	m := c.coroModel()
+	if m.Err != nil {
+		c.und("model", 0, m.Err.Error())
+		return
+	}
+	info := m.Pk.TypesInfo
+	n := 0
+	for _, name := range m.Order {
+		cf := m.Funcs[name]
+		occ := 0
+		ast.Inspect(cf.Decl.Body, func(nd ast.Node) bool {
+			call, ok := nd.(*ast.CallExpr)
+			if !ok || len(call.Args) != 2 {
+				return true
+			}
+			fn, ok := calleeOf(info, call).(*types.Func)
+			if !ok || fn.Pkg() == nil || fn.Pkg().Path() != pkgGocoro || fn.Name() != "Await" {
+				return true
+			}
+			arg := ast.Unparen(call.Args[1])
+			// element of a slice: awaiting[i] or the value variable of a range over it
+			isElem := false
+			switch a := arg.(type) {
+			case *ast.IndexExpr:
+				isElem = true
+			case *ast.Ident:
+				for _, d := range cf.Env.defs[info.Uses[a]] {
+					if rs, ok := d.(*ast.RangeStmt); ok {
+						if vid, ok := rs.Value.(*ast.Ident); ok && info.Defs[vid] == info.Uses[a] {
+							isElem = true
+						}
+					}
+				}
+			}
+			if !isElem {
+				return true
+			}
+			// only slices filled by indexed assignment have holes (a slice grown by append has none)
+			var sliceExpr ast.Expr
+			switch a := arg.(type) {
+			case *ast.IndexExpr:
+				sliceExpr = a.X
+			case *ast.Ident:
+				for _, d := range cf.Env.defs[info.Uses[a]] {
+					if rs, ok := d.(*ast.RangeStmt); ok {
+						sliceExpr = rs.X
+					}
+				}
+			}
+			holes := false
+			if sid, ok := ast.Unparen(sliceExpr).(*ast.Ident); ok {
+				so := info.Uses[sid]
+				ast.Inspect(cf.Decl.Body, func(x ast.Node) bool {
+					if as, ok := x.(*ast.AssignStmt); ok {
+						for _, l := range as.Lhs {
+							if ix, ok := ast.Unparen(l).(*ast.IndexExpr); ok && isObj(info, ix.X, so) {
+								holes = true
+							}
+						}
+					}
+					return true
+				})
+			}
+			if !holes {
+				return true
+			}
+			n++
+			occ++
+			key := fmt.Sprintf("await-non-nil/%s#%d", name, occ)
+			want := "(" + cf.Env.prov(arg) + " != nil)"
+			governed := false
+			for _, a := range cf.Env.enclosingConds(cf.Decl.Body, call) {
+				if a == want {
+					governed = true
+				}
+			}
+			c.check(governed, key, call.Pos(), "the awaited entry is nil-tested first", "gocoro.Await is applied to "+exprString(arg)+" without a governing nil test: entries of skipped records are nil and awaiting them panics on the kernel goroutine")
+			return true
+		})
+	}
+	c.count("awaited_slice_entries", n)
+	c.floor("awaits of collected awaitables", n, 3)
+}
